@@ -34,6 +34,14 @@ var c15NumSpellings = []string{"0", "-0", "0.0", "1", "-1", "1.0", "1.50", "1e0"
 var c15NumJunk = []string{"", "+", "-", ".", "1.", ".5", "+5", "1e", "1e+", "e5", "1.2.3", "0x10", "1_000", "Inf", "-inf", "+Inf", "inf", "INF", "NaN", " 1", "1 ",
 	"1p4", "1P-2", "0.5p1", "\uff11", "1e5.5", "--1", "00012", "1e0000000005", "-.5e1", "1.e2", "true", "1,5", "+-1", "1e-", "5.p-1", "+inf", "-Inf", "Infinity"}
 
+// exponent-range spellings: beyond int64 (strconv.ParseInt fails in scanExponent, even for a
+// zero mantissa), at the int64 limits with a zero mantissa, and beyond big.MaxExp/MinExp
+// ("exponent overflow", decided before any power is computed).  All are cheap in math/big.
+var c15NumRange = []string{"0e99999999999999999999", "1e99999999999999999999", "0e-99999999999999999999", "-0.0E+99999999999999999999",
+	"0e9223372036854775807", "0e9223372036854775808", "0e-9223372036854775808", "0e-9223372036854775809", "0.000e9223372036854775807",
+	"1e9223372036854775807", "1e-9223372036854775808", "1e2147483647", "1e-2147483700", "0.5e2147483647", "12e2147483644", "1p2147483646", "1p2147483647",
+	"1p-2147483649", "1p-2147483650", "0p99999999999999999999", "1e00000000000000000000000000000000000005", "0e+00000000000000000000000000000000000000"}
+
 var c15DocKeys = []string{"a", "b", "k", "\u00e9", "e\u0301", "type", "value", "", "zz", "a"}
 
 var c15DocStrings = []string{"", "a", "true", "false", "1", "0", "True", "0.5", "1e3", "\u00e9", "e\u0301", "\u212a", "x\ny", "\"", "Inf", "null", "\U0001F44D"}
@@ -369,18 +377,6 @@ func c15Structural(d *jdoc) (t cty.Type, ok bool) {
 	return cty.NilType, false
 }
 
-func docHasNonNFCKey(d *jdoc) bool {
-	for i, k := range d.kids {
-		if d.kind == 'o' && cty.NormalizeString(d.keys[i]) != d.keys[i] {
-			return true
-		}
-		if docHasNonNFCKey(k) {
-			return true
-		}
-	}
-	return false
-}
-
 // plainEquiv: two plain decodings are the same document up to key order (maps), number
 // spelling (compared as 512-bit parsed numbers) and string normalisation.
 func plainEquiv(a, b interface{}) bool {
@@ -523,8 +519,6 @@ func c15Doc(ctx *Ctx, d *jdoc) {
 		cause := "unexpected"
 		if dok {
 			cause = "theorem-applies"
-		} else if docHasNonNFCKey(d) {
-			cause = "non-nfc-object-key"
 		}
 		fail("unmarshal-"+uo+":"+cause, "Unmarshal with the implied type failed", uo)
 		return
@@ -541,8 +535,8 @@ func c15Doc(ctx *Ctx, d *jdoc) {
 	}
 }
 
-// docOKGo mirrors JsonVal.docOK on the token stream: object keys strictly ascending
-// (bytewise) and NFC, strings NFC, numbers parse and satisfy NumOK.
+// docOKGo mirrors JsonVal.docOK on the token stream: in every object the NFC forms of the
+// keys are strictly ascending (bytewise), numbers parse and satisfy NumOK.
 func docOKGo(b []byte) bool {
 	dec := json.NewDecoder(bytes.NewReader(b))
 	dec.UseNumber()
@@ -553,8 +547,6 @@ func docOKGo(b []byte) bool {
 			return false
 		}
 		switch v := tok.(type) {
-		case string:
-			return cty.NormalizeString(v) == v
 		case json.Number:
 			p, err := cty.ParseNumberVal(string(v))
 			return err == nil && numReparses(p.AsBigFloat())
@@ -577,8 +569,8 @@ func docOKGo(b []byte) bool {
 					if err != nil {
 						return false
 					}
-					k := kt.(string)
-					if cty.NormalizeString(k) != k || (!first && !(prev < k)) {
+					k := cty.NormalizeString(kt.(string))
+					if !first && !(prev < k) {
 						ok = false
 					}
 					prev, first = k, false
@@ -678,7 +670,7 @@ func c15NumOK(ctx *Ctx, v cty.Value, class string) {
 
 func runC15Docs(ctx *Ctx) {
 	r := ctx.R
-	n := ctx.N(1200, 30000)
+	n := ctx.N(800, 30000)
 	for i := 0; i < n; i++ {
 		c15Doc(ctx, genDoc(r, ctx.N(3, 4)))
 	}
@@ -690,7 +682,14 @@ func runC15Docs(ctx *Ctx) {
 	for _, s := range c15NumJunk {
 		c15ParseNum(ctx, s)
 	}
-	n = ctx.N(1500, 40000)
+	for _, s := range c15NumRange {
+		c15ParseNum(ctx, s)
+		c15ParseNum(ctx, "-"+s)
+		// and through the decoder, as a JSON number (where the lexer accepts it) and as a string
+		c15Unmarshal(ctx, []byte(s), cty.Number)
+		c15Unmarshal(ctx, []byte("\""+s+"\""), cty.Number)
+	}
+	n = ctx.N(1000, 40000)
 	for i := 0; i < n; i++ {
 		s := randDecimal(r)
 		c15ParseNum(ctx, s)
@@ -699,7 +698,7 @@ func runC15Docs(ctx *Ctx) {
 		}
 	}
 	// NumOK per class
-	n = ctx.N(600, 20000)
+	n = ctx.N(400, 20000)
 	for i := 0; i < n; i++ {
 		c15NumOK(ctx, cty.NumberIntVal(int64(r.Uint64())>>uint(r.Intn(64))), "int64")
 		c15NumOK(ctx, cty.NumberUIntVal(r.Uint64()>>uint(r.Intn(64))), "uint64")
